@@ -433,6 +433,9 @@ def gen_structured(r: random.Random, asn4: bool) -> bytes:
         if safi in (133, 134) and r.random() < 0.8:
             nh = b''
         body = struct.pack('!HBB', afi, safi, len(nh)) + nh + b'\x00' + b''.join(hostile_nlri(r, afi, safi) for _ in range(r.randrange(1, 4)))
+        if r.random() < 0.2:
+            # cut at every boundary of the MP_REACH header: family, next hop length, next hop, reserved octet
+            body = body[: r.choice([0, 1, 2, 3, 4, 3 + len(nh), 4 + len(nh), 5 + len(nh), r.randrange(len(body) + 1)])]
         if r.random() < 0.25:
             body = struct.pack('!HB', afi, safi) + b''.join(hostile_nlri(r, afi, safi) for _ in range(r.randrange(1, 3)))
             attrs += enc_attr_raw(0x80, 15, body)
